@@ -88,6 +88,9 @@ def run(ctx):
         for wname in ("NeverCancelledMidSweep", "NeverCrashedMidSweep", "NeverHeaderPruned", "NeverTimeFloorBinds",
                       "NeverL2PathPrunes"):
             txt, _ = cfg_text("r1", repaired, max_steps=6)
+            if wname == "NeverTimeFloorBinds":
+                # needs young blocks below an L1 head that is below the local head: a shorter old chain
+                txt = txt.replace("InitH = 11", "InitH = 9")
             txt = txt.split("INVARIANTS")[0] + "INVARIANTS %s\nCHECK_DEADLOCK FALSE\n" % wname
             r = ctx.tlc_check("chain", "MCPrune.tla", "witness.cfg", files={"witness.cfg": txt}, timeout=900,
                               expect_violation=True, label="witness " + wname)
